@@ -69,6 +69,8 @@ def run(res, tier, seed):
             kind = kinds[i % len(kinds)] if i < 2 * len(kinds) else "random"
             words = line_words(rng, NW, kind)
             line["words"] = l1b.words_bytes(words)
+            if i % 5 == 2:      # quality flags do not change what the counts of a line are
+                line["qual"] = rng.choice([1 << 31, 1 << 28, 1 << 27, 1 << 30] if fam == "klm" else [1 << 31, 1 << 27, 1 << 26, 1 << 30])
             if fam == "klm":
                 line["switch"] = i % 4 if i < 8 else rng.randrange(4)
                 if i == n - 1:
